@@ -766,6 +766,45 @@ def tconv_paddings(res, tier, okx):
     return {"cases": len(cases), "kinds": dict(stats)}
 
 
+def conv_paddings(res, tier, okx):
+    """correspondence of model/Rewrites.v conv_pads with calc_padding_and_skirt (SAME / VALID, strides 1 - 8, kernels 1 - 9,
+    dilations 1 - 4, extents 1 - 300)"""
+    import tempfile
+    n = 2000 if tier == "quick" else 40000
+    rng = random.Random("c01pads/%d" % vlib.seed())
+    cases = [[rng.randrange(2), rng.choice([rng.randrange(1, 20), rng.randrange(1, 300)]), rng.choice([rng.randrange(1, 20), rng.randrange(1, 300)]),
+              rng.randrange(1, 10), rng.randrange(1, 10), rng.randrange(1, 9), rng.randrange(1, 9), rng.randrange(1, 5), rng.randrange(1, 5)] for _ in range(n)]
+    tmp = tempfile.mkdtemp(prefix="c01pads_", dir=vlib.BUILD)
+    cj, oj = os.path.join(tmp, "cases.json"), os.path.join(tmp, "out.json")
+    json.dump(cases, open(cj, "w"))
+    p = subprocess.run([vlib.PY, os.path.join(vlib.ROOT, "tools", "rewrite_worker.py"), cj, oj, "padskirt"], env=vlib.py_env({"VERIF_TMP": tmp}),
+                       capture_output=True, text=True, timeout=3000)
+    if p.returncode != 0 or not os.path.exists(oj):
+        res.violation({"machinery": "rewrite worker (padskirt)"}, {"stderr": p.stderr[-1500:]},
+                      "C01: calc_padding_and_skirt could not be run", no_input=True)
+        return {"cases": 0}
+    impl = json.load(open(oj))
+    shutil.rmtree(tmp, ignore_errors=True)
+    rows = []
+    for c in cases:
+        rows.append([c[0], c[1], c[5], c[3], c[7]])
+        rows.append([c[0], c[2], c[6], c[4], c[8]])
+    model = models.run("conv_pads", rows) if okx else []
+    bad = 0
+    for idx, (c, o) in enumerate(zip(cases, impl)):
+        if not model:
+            break
+        my, mx = model[2 * idx], model[2 * idx + 1]
+        if o != [my[0], mx[0], my[1], mx[1]] and bad < 5:
+            bad += 1
+            res.violation({"kind": "conv_padding", "case": c},
+                          {"case [SAME, h, w, kh, kw, stride_y, stride_x, dilation_y, dilation_x]": c, "implementation (top, left, bottom, right)": o,
+                           "model (front, behind) height": my, "width": mx},
+                          "C01: calc_padding_and_skirt gives %s for a %dx%d map, kernel %dx%d, stride %dx%d, dilation %dx%d (%s): not the reference's padding "
+                          "(props/C01.v conv_same_padding_is_reference)" % (o, c[1], c[2], c[3], c[4], c[5], c[6], c[7], c[8], "SAME" if c[0] else "VALID"))
+    return {"cases": len(cases)}
+
+
 def run(tier):
     res = vlib.Result("C01", tier, "other")
     b = vlib.build_property("C01")
@@ -780,6 +819,7 @@ def run(tier):
     rw_cov["prelu_kinds"] = prelu_kinds(res, tier, okm and b["ok"])
     rw_cov["axis_parts"] = axis_parts(res, tier, okm and b["ok"])
     rw_cov["tconv_paddings"] = tconv_paddings(res, tier, okm and b["ok"])
+    rw_cov["conv_paddings"] = conv_paddings(res, tier, okm and b["ok"])
     n = 470 if tier == "quick" else 3400
     max_macs = 1200000 if tier == "quick" else 30000000
     rng = random.Random("c01/%d" % vlib.seed())
